@@ -9,6 +9,7 @@ import functools
 import inspect
 import itertools
 import operator
+import os
 import types
 
 from .path import EngineError, Infeasible, Unsupported
